@@ -14,7 +14,7 @@ for p in sorted(glob.glob(os.path.join(os.path.dirname(__file__), "..", "seeded"
     caught = ev.get("caught")
     note = m.get("note", "")
     needs = (m.get("needs") or "").replace("\n", " ").replace("|", "/")
-    rows.append("| %s | %s | %s | %s |" % (name, ", ".join(m.get("files") or ev.get("files") or []), needs[:230],
+    rows.append("| %s | %s | %s | %s |" % (name, ", ".join(m.get("files") or ev.get("files") or []), needs[:160],
                 ("caught: " + "; ".join(s.split("/", 1)[-1] for s in sigs[:2])) if caught else ("MISSED" + (" - " + note if note else ""))))
 print("| seeded change | files | needs | result (quick tier, seeds 1-2) |\n|---|---|---|---|")
 print("\n".join(rows))
